@@ -14,7 +14,8 @@ CONSTANTS Mode,       \* "bytes" | "utf8" | "dec"
           U8(_),      \* <- Utf8
           WR(_, _),   \* <- Write
           TD(_),      \* <- ToDec
-          NT(_)       \* <- NumText
+          NT(_),      \* <- NumText
+          NTL(_, _)   \* <- NumTextLoc
 
 VARIABLE inp
 
@@ -28,6 +29,12 @@ Utf8BugCont(cp) == IF cp \in 2048..65535 THEN <<224 + (cp \div 4096), 64 + ((cp 
 WriteBug(d, endian) == IF Len(d) \in {2, 8} THEN d ELSE Write(d, endian)               \* 16/64-bit never swapped
 NumTextBug(x) == NumText([s |-> 0, m |-> x.m])                                        \* loses the sign
 ToDecBug(n) == IF n # 0 /\ n % 10 = 0 /\ n > 0 THEN ToDecNat(n \div 10) ELSE ToDec(n) \* drops a trailing zero
+
+NumTextLocBug(x, p) ==   \* groups from the left: 123'456'7
+  LET ds == IF x.m = <<>> THEN <<Zero>> ELSE BigToDecNat(x.m)
+      RECURSIVE G(_)
+      G(d) == IF p.grp = 0 \/ Len(d) <= p.grp THEN d ELSE SubSeq(d, 1, p.grp) \o <<p.sep>> \o G(SubSeq(d, p.grp + 1, Len(d)))
+  IN (IF x.s = 1 THEN <<Minus>> ELSE <<>>) \o G(ds)
 
 (* ---- input families *)
 Near(S, k) == UNION {{x + d : d \in (-k)..k} : x \in S}
@@ -126,6 +133,36 @@ ASSUME /\ Utf8DecodeStr(<<237, 160, 128>>).st = DInvalid        \* U+D800
        /\ Utf8DecodeStr(<<128>>).st = DInvalid
        /\ Utf8DecodeStr(<<255>>).st = DInvalid
        /\ Utf8DecodeStr(<<>>) = [st |-> DOk, w |-> <<>>]
+
+(* ---- laws: decimal under a numpunct facet *)
+LocNum == IF inp.k = "int" THEN NumOfInt(inp.v) ELSE inp.x
+\* the facet laws are evaluated on a ninth of the small integers, all boundary integers and a
+\* third of the wide magnitudes (they cost four conversions per state)
+LocApplies ==
+  /\ Mode = "dec"
+  /\ IF inp.k = "int" THEN inp.v % 9 = 0 \/ inp.v > DecRange \/ inp.v < -DecRange
+     ELSE (IF inp.x.m = <<>> THEN 0 ELSE inp.x.m[Len(inp.x.m)] + Len(inp.x.m)) % 3 = 0
+
+LawDecLocRoundTrip ==
+  LocApplies =>
+    \A id \in PunctIds :
+      LET p == Puncts[id]
+          t == NTL(LocNum, p)
+      IN /\ TextNumLoc(t, p) = [ok |-> TRUE, x |-> LocNum]
+         /\ Ungroup(t, p) = NumText(LocNum)                      \* the separators removed: the plain text
+         /\ (p.grp = 0 => t = NumText(LocNum))
+
+\* every group but the first has exactly grp digits, the first 1..grp; no separator next to the sign
+LawDecLocShape ==
+  LocApplies =>
+    \A id \in PunctIds :
+      LET p == Puncts[id]
+          t == NTL(LocNum, p)
+          body == IF t[1] = Minus THEN Tail(t) ELSE t
+          n == Len(body)
+      IN p.grp > 0 =>
+           /\ \A i \in 1..n : (body[i] = p.sep) <=> ((n - i + 1) % (p.grp + 1) = 0)
+           /\ body[1] # p.sep
 
 (* ---- laws: decimal *)
 LawDecRoundTrip ==
